@@ -1249,6 +1249,18 @@ func c01driver(ctx *verifhlib.Ctx) {
 		cr := r.Fork()
 		jobs = append(jobs, func() verifhlib.Case { return c01random(ctx, cr, lenchk, maxLen) })
 	}
+	// stream "peek" (run alone, before the pool): is anything readable under d while a large
+	// mismatching blob goes through the memory write-through path?
+	npeek := 3
+	if ctx.Tier == "thorough" {
+		npeek = 10
+	}
+	var peeks []verifhlib.Case
+	if len(only) == 0 {
+		for i := 0; i < npeek; i++ {
+			peeks = append(peeks, c01peek(ctx, r.Fork(), lenchk, (16+8*(i%3))<<20))
+		}
+	}
 	out := make([]*verifhlib.Case, len(jobs))
 	next := int64(-1)
 	var wg sync.WaitGroup
@@ -1275,6 +1287,65 @@ func c01driver(ctx *verifhlib.Ctx) {
 			ctx.Emit(*c)
 		}
 	}
+	for _, c := range peeks {
+		ctx.Emit(c)
+	}
+}
+
+// c01peek writes size bytes with one flipped byte under the digest of the unflipped bytes through
+// WriteBlobToCacheWithMetaInfo (memory path) while a goroutine polls stat / reader / metainfo under
+// that digest.  Correct code adds the entry only after verification: nothing is ever readable.
+func c01peek(ctx *verifhlib.Ctx, r *verifhlib.Rng, lenchk bool, size int) verifhlib.Case {
+	e := c01newEnv(ctx, c01cfg{mem: true, max: 1 << 30, retry: 1, ttl: 1000, genpl: 4}, lenchk, [][]byte{{1}})
+	defer e.closeFn()
+	data := make([]byte, size)
+	seed := r.U64()
+	for i := range data {
+		seed = seed*6364136223846793005 + 1442695040888963407
+		data[i] = byte(seed >> 56)
+	}
+	nm := c01sha(data)
+	data[r.Intn(size)] ^= 0x40
+	var seen int32
+	stop := make(chan struct{})
+	var wg sync.WaitGroup
+	wg.Add(1)
+	go func() {
+		defer wg.Done()
+		for {
+			select {
+			case <-stop:
+				return
+			default:
+			}
+			if _, err := e.cas.GetCacheFileStat(nm); err == nil {
+				atomic.StoreInt32(&seen, 1)
+			}
+			if rd, err := e.cas.GetCacheFileReader(nm); err == nil {
+				rd.Close()
+				atomic.StoreInt32(&seen, 1)
+			}
+			var tm metadata.TorrentMeta
+			if err := e.cas.GetCacheFileMetadata(nm, &tm); err == nil {
+				atomic.StoreInt32(&seen, 1)
+			}
+		}
+	}()
+	err := e.cas.WriteBlobToCacheWithMetaInfo(nm, uint64(size), func(w store.FileReadWriter) error {
+		_, werr := w.Write(data)
+		return werr
+	}, 4<<20)
+	close(stop)
+	wg.Wait()
+	if err == nil { // accepted: readable from now on
+		seen = 1
+	}
+	if _, serr := e.cas.GetCacheFileStat(nm); serr == nil {
+		seen = 1
+	}
+	return verifhlib.Case{Coq: "peekcase " + verifhlib.B(seen == 1), NT: true, Kind: "peek-large-mismatch",
+		Key: fmt.Sprintf("peek|%d|%s", size, nm), Hist: []string{"Peek"},
+		Sample: map[string]interface{}{"size": size, "readable_during_failed_write": seen == 1}}
 }
 
 func c01random(ctx *verifhlib.Ctx, cr *verifhlib.Rng, lenchk bool, maxLen int) verifhlib.Case {
